@@ -79,6 +79,7 @@ pub fn base_strategy() -> BoxedStrategy<c02::Case> {
             glob: GlobMode::Off,
             nolinks,
             extra: 0,
+            dest_via_link: false,
         })
         .boxed()
 }
@@ -358,12 +359,12 @@ impl Check for C06 {
             Tier::Thorough => prop_loop(ctx, rec, "sched", strategy(24), ctx.share(2000), judge),
         }
     }
-    fn replay(&self, _ctx: &Ctx, _sub: &str, case: &Value) -> Verdict {
+    fn replay(&self, ctx: &Ctx, _sub: &str, case: &Value) -> Verdict {
         match serde_json::from_value::<Case>(case.clone()) {
             Ok(c) => {
                 // schedules reproduce only approximately: a replay fails if any of 3 attempts fails
                 let mut last = Verdict::Pass;
-                for _ in 0..3 {
+                for _ in 0..ctx.replay_attempts {
                     last = judge(&c, &mut Rec::default());
                     if matches!(last, Verdict::Fail(..)) {
                         return last;
